@@ -1,9 +1,11 @@
 import Knut.Driver.C11
 import Knut.Driver.C07
+import Knut.Driver.C08
 import Knut.Driver.Dec
 import Knut.Driver.C19
 import Knut.Driver.C12
 import Knut.Driver.C04
+import Knut.Driver.Balance
 import Knut.Driver.C17
 /-! Line-protocol driver over the executable model: one request per line (`op field*`), one answer line.
 Each property contributes a handler module `Knut/Driver/<X>.lean`; add it to `handlers`. -/
@@ -14,9 +16,11 @@ def handlers : List (List String → Option String) := [
   Knut.Driver.C17.handle,
   Knut.Driver.C11.handle,
   Knut.Driver.C07.handle,
+  Knut.Driver.C08.handle,
   Knut.Driver.C12.handle,
   Knut.Driver.Dec.handle,
-  Knut.Driver.C04.handle
+  Knut.Driver.C04.handle,
+  Knut.Driver.Balance.handle
 ]
 
 def handle (fields : List String) : String :=
